@@ -5,6 +5,8 @@ type RAT[K comparable, V any] struct {
 	length int
 	values map[K][]V
 	idx    map[K]int
+	// full tells whether every slot of the key's ring has been written.
+	full map[K]bool
 }
 
 func NewRAT[K comparable, V any](length int) *RAT[K, V] {
@@ -12,6 +14,7 @@ func NewRAT[K comparable, V any](length int) *RAT[K, V] {
 		length: length,
 		values: make(map[K][]V),
 		idx:    make(map[K]int),
+		full:   make(map[K]bool),
 	}
 }
 
@@ -34,14 +37,18 @@ func (r *RAT[K, V]) Find(k K, predicate func(V) bool) (V, bool) {
 	}
 
 	for i := idx; i >= 0; i-- {
-		v := r.values[k][idx]
+		v := r.values[k][i]
 		if predicate(v) {
 			return v, true
 		}
 	}
 
+	if !r.full[k] {
+		// Slots above idx were never written.
+		return zero, false
+	}
 	for i := r.length - 1; i > idx; i-- {
-		v := r.values[k][idx]
+		v := r.values[k][i]
 		if predicate(v) {
 			return v, true
 		}
@@ -57,6 +64,12 @@ func (r *RAT[K, V]) Write(k K, value V) {
 		r.values[k] = make([]V, r.length)
 	} else {
 		idx = (idx + 1) % r.length
+		if idx == r.length-1 {
+			r.full[k] = true
+		}
+	}
+	if r.length == 1 {
+		r.full[k] = true
 	}
 
 	r.idx[k] = idx
@@ -82,7 +95,7 @@ func (r *RAT[K, V]) FindValues(predicate func(V) bool) map[K]V {
 				break
 			}
 		}
-		if found {
+		if found || !r.full[k] {
 			continue
 		}
 		for i := r.length - 1; i > v; i-- {
